@@ -10,8 +10,12 @@ import py2coq
 import specs as _specs_pkg
 
 SPECS = {}
+TRANSLATOR = {}     # generated module -> name of the translator module (default py2coq)
 for _m in sorted(pkgutil.iter_modules(_specs_pkg.__path__), key=lambda m: m.name):
-    SPECS.update(importlib.import_module('specs.' + _m.name).SPECS)
+    _mod = importlib.import_module('specs.' + _m.name)
+    SPECS.update(_mod.SPECS)
+    for _k in _mod.SPECS:
+        TRANSLATOR[_k] = getattr(_mod, 'TRANSLATOR', 'py2coq')
 
 
 def generate(names):
@@ -20,7 +24,7 @@ def generate(names):
     for nm in names:
         path, items = SPECS[nm][0], SPECS[nm][1]
         req = SPECS[nm][2] if len(SPECS[nm]) > 2 else ()
-        text, s = py2coq.translate_module(path, items, req)
+        text, s = importlib.import_module(TRANSLATOR.get(nm, 'py2coq')).translate_module(path, items, req)
         write_if_changed(os.path.join(COQ, 'gen', nm + '.v'), text)
         sigs.update(s)
     return sigs
